@@ -624,6 +624,23 @@ func checkC06(c *core.Ctx) []core.Floor {
 			sc.tags = append(sc.tags, "ambiguity_probe")
 			sc.expectErr = append(sc.expectErr, true)
 		}
+		// both sides of a join going by the same name (a table joined to
+		// itself without correlation names, two tables given the same
+		// correlation name): an unqualified column that exists on both sides
+		// is ambiguous there as well
+		for _, text := range []string{
+			"SELECT * FROM t1 JOIN t1 ON u = u",
+			"SELECT u FROM t1 JOIN t1 ON t1.a = t1.a",
+			"SELECT * FROM t1 x JOIN t2 x ON u = 1",
+			"SELECT a FROM t1 x LEFT JOIN t2 x ON x.u = x.u",
+			"SELECT * FROM t1 x JOIN t2 x ON x.u = x.u WHERE a = 1",
+		} {
+			sc.queries = append(sc.queries, &proto.NStmt{Kind: "select", Star: true, From: []proto.NTable{{Name: "t1"}}})
+			sc.texts = append(sc.texts, text)
+			sc.tags = append(sc.tags, "ambiguity_probe")
+			sc.expectErr = append(sc.expectErr, true)
+			c.Count("ambiguity_probe_both_sides_under_one_name", 1)
+		}
 		runSQLCase(c, "C06", drv, i, sc, m)
 	})
 	core.ParallelFor(n/2, c.Workers, func(i int) { runC06Catalog(c, drv, i) })
